@@ -951,6 +951,22 @@ func (s *Service) runPipeline(ctx context.Context, rp *runnablePipeline) error {
 		// meantime), a blind Delete(id) would remove that OTHER run instead
 		// of just undoing this one's own publication.
 		s.deleteRunningPipelineIfCurrent(rp.pipeline.ID, rp)
+		// The nodes were already started above and nothing owns their cleanup
+		// yet: stop them and wait until they are gone. Otherwise the run would
+		// stay alive (reading, writing, acknowledging) while Start reports a
+		// failure and no Stop can reach it any more.
+		rp.t.Kill(err)
+		for _, n := range rp.n {
+			if node, ok := n.(stream.ForceStoppableNode); ok {
+				node.ForceStop(ctx)
+			}
+		}
+		nodesWg.Wait()
+		// The status was already changed in memory; record how this run
+		// really ended (best effort, the store may still be failing).
+		if updateErr := s.pipelines.UpdateStatus(ctx, rp.pipeline.ID, pipeline.StatusDegraded, fmt.Sprintf("%+v", err)); updateErr != nil {
+			s.logger.Err(ctx, updateErr).Str(log.PipelineIDField, rp.pipeline.ID).Msg("could not store the status of the pipeline that failed to start")
+		}
 		return err
 	}
 
